@@ -75,3 +75,209 @@ def nontrivial(results):
                     seen.add(common.digest((cols, rows, r['abstract_op'])))
             pre = post
     return len(seen)
+
+
+# ------------------------------------------------------------------ vault sweep at Row level (the three vault functions)
+
+def _row_sweep_cases(tier):
+    """(<=3 runs, repeats <=3) x {set, insert, delete} x every position 0..width+1 x repeat 1..4: exhaustive"""
+    import itertools
+    maxruns = 3
+    cases = []
+    for k in range(maxruns + 1):
+        for reps in itertools.product((1, 2, 3), repeat=k):
+            w = sum(reps)
+            for x in list(range(0, w + 2)) + [-1]:
+                for rep in (1, 2, 3, 4):
+                    cases.append((reps, 'set', x, rep)); cases.append((reps, 'ins', x, rep))
+                cases.append((reps, 'del', x, 1))
+    return cases
+
+
+def _row_sweep_worker(chunk):
+    odfdo = common.use_repo()
+    out = []
+    for reps, kind, x, rep in chunk:
+        cells = [[r, i + 1, None] for i, r in enumerate(reps)]
+        xml = '<table:table-row>%s</table:table-row>' % ''.join(tl.cell_xml(c) for c in cells)
+        try:
+            row = tl.timed(odfdo.Element.from_tag, xml)
+            intern = tl.Intern()
+
+            def absrow():
+                el = tl.etree.fromstring('<r %s>%s</r>' % (tl.NSDECL, row.serialize()))[0]
+                return [(tl.rep_val(c[1]), c[2], c[3]) for c in (intern.cell(e) for e in el)]
+            pre = absrow()
+            c = odfdo.Cell(9, repeated=rep if rep > 1 else None)
+            f, r_, v, s = intern.cell(tl.etree.fromstring('<r %s>%s</r>' % (tl.NSDECL, c.serialize()))[0])
+            arg = (tl.rep_val(r_), v, s)
+            if kind == 'set':
+                tl.timed(row.set_cell, x, c); op = 'RSet (%d) %s' % (x, tl.c_cellrun(arg))
+            elif kind == 'ins':
+                tl.timed(row.insert_cell, x, c); op = 'RIns (%d) %s' % (x, tl.c_cellrun(arg))
+            else:
+                tl.timed(row.delete_cell, x); op = 'RDel (%d)' % x
+            post = absrow()
+            out.append('(%s, %s, %s, %s)' % (tl.c_cells(pre), op, tl.c_cells(post), tl.c_zlist(list(row._rmap))))
+        except Exception as e:
+            out.append('(%s, RClear, [(7%%nat,(7,7))], [])' % tl.c_cells([(r, i + 1, 0) for i, r in enumerate(reps)]))
+    return out
+
+
+ROW_HEADER = ('Require Import Vault Row Table Grid Tableabs Tablexml Tablechk.\n'
+              'From Coq Require Import List ZArith NArith Bool Arith. Import ListNotations. Open Scope Z_scope.\n'
+              'Definition chkrow (c : rruns * rop * rruns * list Z) : nat := let \'(pre, o, post, m) := c in chk_row pre o post m.\n')
+
+
+def row_sweep(tier):
+    cases = _row_sweep_cases(tier)
+    n = 16
+    chunks = [cases[i::n] for i in range(n)]
+    ctx = multiprocessing.get_context('fork')
+    with ctx.Pool(n) as pool:
+        outs = pool.map(_row_sweep_worker, chunks)
+    terms, index = [], []
+    for ci, out in enumerate(outs):
+        for j, t in enumerate(out):
+            terms.append(t); index.append(chunks[ci][j])
+    bad, errors = common.run_shards(ROW_HEADER, terms, 'chkrow', 'rowsweep', shard=max(50, len(terms) // 16 + 1))
+    return index, bad, errors
+
+
+# ------------------------------------------------------------------ the check proper
+
+def pre_xml_of(odfdo, case, step):
+    """serialised table right before step `step` (for shrinking)"""
+    d = tl.Driver(odfdo, case['init_xml'])
+    for st in case['steps'][:step]:
+        d.apply(st['op'])
+        for q in st.get('reads', []):
+            try: d.read(q)
+            except Exception: pass
+    return tl.timed(d.table.serialize)
+
+
+def evaluate(cases, checker, tag):
+    """run cases on the implementation and in Coq; returns (results, {index: code}, coq errors)"""
+    results = drive(cases, fn=_replay_worker)
+    terms, idx = [], []
+    for i, (case, res) in enumerate(results):
+        if res['term'] is not None:
+            terms.append(res['term']); idx.append(i)
+    bad, errors = common.run_shards(tl.HEADER, terms, checker, tag, shard=max(1, len(terms) // 16 + 1))
+    return results, {idx[k]: c for k, c in bad.items()}, errors
+
+
+def run_table_check(prop, tier, seed, replay, checker, layers, soft_codes, kinds, extra=None, trusted=(), modelled='', assumptions=()):
+    """layers: code -> text of a property-level failure (a concrete failing input).  soft_codes: codes that are
+    model/proof-level (no failing input by themselves).  extra(tier, rng) -> dict(violations=[(payload)], coverage={}, errors=[])"""
+    t0 = time.time(); rng = random.Random(seed)
+    odfdo = common.use_repo()
+    proofs = common.build_proofs(prop)
+    known = {e['key']: e for e in common.known_findings(prop)}
+    corpus = []
+    for f in sorted((common.ROOT / 'corpus' / prop).glob('*.json')):
+        corpus.append(json.load(open(f))['case'])
+    if replay:
+        payload = json.load(open(replay))
+        cases = [payload['case']] if 'case' in payload else []
+        results, bad, errors = evaluate(cases, checker, prop.lower()) if cases else ([], {}, [])
+        sweep = None
+    else:
+        jobs = plan(tier, rng, kinds)
+        gen = drive(jobs)
+        cases = corpus + [c for c, r in gen if r is None or r.get('error') is None or True]
+        results, bad, errors = evaluate(cases, checker, prop.lower())
+        sweep = row_sweep(tier) if prop == 'C01' else None
+    violations, known_seen, notes = [], [], []
+    abstraction_failures = [(i, r['error']) for i, (c, r) in enumerate(results) if r['term'] is None]
+    hard = {i: c for i, c in bad.items() if c != 9 and (c % 100) in layers}
+    soft = {i: c for i, c in bad.items() if c != 9 and (c % 100) not in layers}
+    seen_keys = set()
+    for i in sorted(hard):
+        code = hard[i]; step = code // 100 - 1; layer = code % 100
+        case, res = results[i]
+        rec = res['records'][step] if 0 <= step < len(res['records']) else None
+        key = '%s/%s' % (rec['op'][0] if rec else 'initial-state', layers[layer][0])
+        if key in seen_keys:
+            continue
+        seen_keys.add(key)
+        # shrink: the single step from the serialised pre-state, else the prefix of the history
+        small = dict(kind=case['kind'], init_xml=case['init_xml'], steps=case['steps'][:step + 1])
+        if rec is not None and not replay:
+            try:
+                one = dict(kind='shrunk', init_xml=pre_xml_of(odfdo, case, step), steps=[case['steps'][step]])
+                r2, b2, e2 = evaluate([one], checker, prop.lower() + 's')
+                if b2 and list(b2.values())[0] % 100 == layer:
+                    small = one
+            except Exception:
+                pass
+        payload = dict(layer=layers[layer][1], code=layer, key=key, step=len(small['steps']) - 1, case=small,
+                       operation=rec['op'] if rec else None, implementation_raised=rec['raised'] if rec else None,
+                       implementation_post=rec['post'] if rec else None,
+                       theorem_or_correspondence='coq/theories/%s.v + Tablechk.%s' % (prop, checker),
+                       known_finding_key=key if key in known else None)
+        if key in known:
+            known_seen.append('%s (%s)' % (key, known[key]['description'][:100]))
+            common.write_replay(prop, seed, 'known-' + common.digest(key)[:8], payload)
+        else:
+            violations.append((common.write_replay(prop, seed, common.digest((key, i))[:8], payload), False))
+        if len(violations) >= 6:
+            break
+    # the vault sweep (C01): exhaustive small scope at Row level
+    sweep_cov = {}
+    if sweep is not None:
+        index, sbad, serr = sweep
+        errors += serr
+        shard = {k: c for k, c in sbad.items() if c in (2, 5)}
+        sweep_cov = dict(vault_sweep_cases=len(index), vault_sweep_exhaustive=True,
+                         vault_sweep_rule='Row.set_cell/insert_cell/delete_cell on every run list with <=3 runs of repeats <=3, every position 0..width+1 and -1, argument repeats 1..4',
+                         vault_sweep_failures=len(shard), vault_sweep_shape_only=sum(1 for c in sbad.values() if c == 9))
+        for k in sorted(shard)[:1]:
+            reps, kind, x, rep = index[k]
+            key = 'Row.%s/%s' % (kind, 'expanded-cells' if shard[k] == 2 else 'map')
+            payload = dict(layer='vault sweep: ' + ('expanded cells differ from the list operation' if shard[k] == 2 else '_rmap is not the map of the XML'),
+                           key=key, row_run_repeats=list(reps), operation=[kind, x, rep], known_finding_key=key if key in known else None,
+                           how='Row built from XML with cells of these repeats; Row.%s_cell(%d%s)' % (
+                               {'set': 'set', 'ins': 'insert', 'del': 'delete'}[kind], x, '' if kind == 'del' else ', Cell(9, repeated=%d)' % rep))
+            if key in known:
+                known_seen.append(key)
+            else:
+                violations.append((common.write_replay(prop, seed, 'vault-' + common.digest(key)[:8], payload), False))
+        soft.update({('sweep', k): c for k, c in sbad.items() if c in (3, 8)})
+    ex = extra(tier, rng, odfdo, known) if extra else dict(violations=[], coverage={}, errors=[], known_seen=[])
+    violations += ex['violations']; errors += ex['errors']; known_seen += ex.get('known_seen', [])
+    # model-level / abstraction-level trouble: look for a concrete failing input with the direct Python reference
+    soft_msgs = []
+    found_by_oracle = False
+    if soft or abstraction_failures or not proofs['ok'] or errors:
+        for i, (case, res) in enumerate(results):
+            st = tl.python_oracle(res) if res.get('term') else None
+            if st is not None:
+                found_by_oracle = True
+                payload = dict(layer='direct Python reference (search phase)', key='oracle/%s' % res['records'][st]['op'][0],
+                               case=dict(kind=case['kind'], init_xml=case['init_xml'], steps=case['steps'][:st + 1]), step=st)
+                violations.append((common.write_replay(prop, seed, 'oracle-%d' % i, payload), False))
+                break
+        for i, c in list(soft.items())[:5]:
+            soft_msgs.append('case %s: code %s (%s)' % (i, c, soft_codes.get(c % 100 if isinstance(c, int) else c, 'model-level')))
+        for i, e in abstraction_failures[:5]:
+            soft_msgs.append('case %d: %s' % (i, e))
+    violations += common.proof_violation(prop, seed, proofs, errors + soft_msgs, bool(hard) or found_by_oracle or bool(ex['violations']))
+    steps = sum(len(r['records']) for c, r in results)
+    fid = sum(1 for c in bad.values() if c == 9)
+    cov = dict(
+        trusted_base=list(trusted),
+        evaluations=steps, histories=len(results), distinct_nontrivial=nontrivial(results),
+        rule='initial tables {empty, Table(w,h), random run-length shapes written as XML text, tables of tests/samples/*.ods with repeats clamped to 3 and at most 8 rows x 8 cells}; '
+             'histories of 1-%d operations drawn from %d kinds with positions around every run boundary of the current state (first/middle/last of a run, the edge, +1, +2, negative), repeats 1-4; '
+             'after every step: raw lxml abstraction, private maps, reads (size, full matrix, 2 single values, a row, a column, a row width); corpus first. '
+             'distinct_nontrivial = distinct (pre-state run shape, abstract operation) where the call changed the XML or the table holds a repeated run'
+             % (8 if tier == 'quick' else 12, len(set(kinds))),
+        samples=[dict(initial=c['init_xml'][:400], steps=c['steps'][:2]) for c, r in results[len(corpus):len(corpus) + 3]],
+        corpus_cases=len(corpus), fidelity_divergences=fid, fidelity_ratio=round(1 - fid / max(1, len(results)), 4),
+        modelled=modelled, exhaustive=False, known_findings_reobserved=len(known_seen))
+    cov.update(histogram(results)); cov.update(sweep_cov); cov.update(ex['coverage'])
+    if fid:
+        print('NOTE: %d histories where only the exact run-length shape differs from the model (fidelity, not an alarm)' % fid)
+    return common.finish(prop, tier, seed, proofs, cov, violations, known_seen, t0, assumptions=list(assumptions))
